@@ -116,7 +116,7 @@ class Prop:
                 alts = [a for a in alts if a[0] not in [f for f, _ in thin] or id(a) in keep]
             for i in range(0, len(alts), CHUNK):
                 yield dict(kind="alts", univ=g["univ"], setup=g["setup"], alts=alts[i:i + CHUNK], label=g["label"])
-        for g in mut_c02.gen_falsy():
+        for g in list(mut_c02.gen_memo()) + list(mut_c02.gen_falsy()):
             for i in range(0, len(g["alts"]), CHUNK):
                 yield dict(kind="alts", univ=g["univ"], setup=g["setup"], alts=g["alts"][i:i + CHUNK], label=g["label"])
         if not quick:
@@ -144,7 +144,7 @@ class Prop:
                 if ops[i][0] in ("remove", "remove_children", "move", "set_data", "rename", "sort", "meta", "filter", "del", "clear", "iter_remove"):
                     yield dict(kind="hist", univ=desc["univ"], ops=ops[:i] + ops[i + 1:])
             return
-        for h in mut.shrink_candidates(dict(univ=desc["univ"], ops=ops)):
+        for h in mut_ex.safe_shrink_candidates(dict(univ=desc["univ"], ops=ops)):
             yield dict(kind="hist", univ=h["univ"], ops=h["ops"])
 
     def run(self, desc) -> Case:
@@ -207,3 +207,8 @@ CORPUS_C02: list = [
 
 PROP = Prop()
 CORPUS = mut.CORPUS + CORPUS_C02
+
+import parts  # noqa: E402
+import parts_misc  # noqa: E402
+
+parts.attach(PROP, parts_misc.WRAP)   # common.DictWrapper (model Forest/MiscWrap.v, theorems at the end of Properties/C02.v)
